@@ -209,6 +209,9 @@ def machine(acc: Acc, tier, shard, nshards):
     prof = model.Profile(max_depth=2, max_items=5, forbid="\"'", lookalike_multi=False, kv_roots=False)
     state = {"fail": None}
     PRINT_OPTS = [dict(), dict(indent=2, quote="'"), dict(end_comment=True, align_values=True, spacer="\t", indent=1)]
+    from . import c09 as _c09
+
+    VERSIONED = [e for e in _c09.entries() if e[4] is not None and _c09.chains(e[0], 3)]
 
     class M(RuleBasedStateMachine):
         @initialize()
@@ -262,9 +265,31 @@ def machine(acc: Acc, tier, shard, nshards):
             if a != b:
                 self._fail("history:print", f"reused PrettyPrinter differs from a fresh one for {text!r:.100}")
 
-        @rule(data=st.data(), version=st.sampled_from([None, 5.0, 6.0, 7.6, 8.0, 8.2]))
+        @rule(data=st.data(), version=st.sampled_from([None, 4.0, 5.0, 5.4, 5.6, 6.0, 6.2, 6.4, 7.0, 7.2, 7.4, 7.6, 8.0, 8.2, 8.4]))
         def validate(self, data, version):
-            text, bad = self._text(data)
+            if data.draw(st.booleans()):
+                # a document holding one keyword whose schema entry depends on the version (so that minor versions
+                # of one major version give different verdicts), nested under a root type
+                from . import c09
+
+                t, k, ai, meta, rep = data.draw(st.sampled_from(VERSIONED))
+                chain = data.draw(st.sampled_from(c09.chains(t, 3)[:3]))
+                text, bad = render.render(c09.build_doc(chain, rep)).text, False
+                if data.draw(st.booleans()):
+                    # straddle the entry's own version boundary with two calls on the reused object: first the
+                    # other side of the boundary (same major version where there is one), then the drawn side
+                    b = float(meta.get("minVersion", meta.get("maxVersion")))
+                    lo = float(int(b)) if b != int(b) else round(b - 0.2, 1)
+                    first, version = data.draw(st.sampled_from([(lo, b), (b, lo), (round(b + 0.2, 1), lo)]))
+                    d0 = W.loads(text)
+                    r00 = d0[0] if isinstance(d0, list) else d0
+                    self.hist.append(["validate", text, first])
+                    a0 = result_of(lambda: self.V.validate(r00, schema_name=r00["__type__"], version=first))
+                    b0 = result_of(lambda: W.Validator().validate(r00, schema_name=r00["__type__"], version=first))
+                    if a0 != b0:
+                        self._fail("history:validate", f"reused Validator gives {str(a0)[:150]}, a fresh one {str(b0)[:150]} (version {first}) for {text!r:.100}")
+            else:
+                text, bad = self._text(data)
             if bad:
                 return
             d = W.loads(text)
